@@ -56,7 +56,7 @@ inline std::string gen_scenario(const unsigned char *data, size_t size, const st
   if (c.chance(1, 4)) addflag("STAYOPEN");
   if (c.chance(1, 5)) addflag("DNS0x20");
   if (c.chance(1, 10)) addflag("NOCHECKRESP");
-  if (pf.search && c.chance(1, 6)) addflag("NOSEARCH");
+  if ((pf.search && c.chance(1, 6)) || prop == "C08") addflag("NOSEARCH");   // C08 is about the cache key of the name as given
   if (pf.search && c.chance(1, 8)) addflag("NOALIASES");
   int tries = 1 + (int)c.pick(4); if (pf.bigtries && c.chance(1, 4)) { static const int bt[] = {8, 17, 33, 64, 65, 70, 100}; tries = bt[c.pick(7)]; }
   static const int touts[] = {2000, 300, 1, 250, 251, 1000, 5000, 7000, 100000}; int timeout = touts[c.pick(9)];
@@ -116,19 +116,23 @@ inline std::string gen_scenario(const unsigned char *data, size_t size, const st
       static const char *kinds_all[] = {"query", "search", "send", "getaddrinfo", "gethostbyname", "gethostbyaddr", "getnameinfo", "lquery", "lsearch", "lsend"};
       static const char *kinds_simple[] = {"query", "send", "lquery", "query"};
       std::string kind = pf.all_kinds ? kinds_all[c.pick(10)] : kinds_simple[c.pick(4)];
+      if (prop == "C08") { static const char *ks[] = {"query", "send", "lquery", "getaddrinfo", "gethostbyname", "query", "lsend", "query"}; kind = ks[c.pick(8)]; }
       if (prop == "C12") { static const char *ks[] = {"search", "lsearch", "getaddrinfo", "gethostbyname", "search"}; kind = ks[c.pick(5)]; }
       if (prop == "C13") { static const char *ks[] = {"getaddrinfo", "gethostbyname", "gethostbyaddr", "getnameinfo", "getaddrinfo"}; kind = ks[c.pick(5)]; }
-      std::string name = gen_req_name(c, (prop == "C08" && c.chance(1, 2) && id > 1) ? 1 + (int)c.pick((unsigned)id) : id, pf);
+      std::string name = gen_req_name(c, (prop == "C08" && id > 1) ? 1 + (int)c.pick(2) : id, pf);
+      if (prop == "C08") { static const char *forms[] = {"r%d.test", "r%d.test", "R%d.TEST", "r%d.test.", "r%d.Test"}; char nb[64]; snprintf(nb, sizeof nb, forms[c.pick(5)], 1 + (int)c.pick(2)); name = nb; }
       bool inject_now = pf.inject && c.chance(2, 3);
       if (inject_now) o += "rule * r" + std::to_string(id) + " 0 " + (c.chance(1, 2) ? "silence" : "delay") + "\n";   // keep the request live so that the forged packet is what arrives first
       o += "req " + std::to_string(id) + " " + kind + " " + name;
       if (kind == "getaddrinfo" || kind == "gethostbyname" || kind == "gethostbyaddr" || kind == "getnameinfo") { static const char *fam[] = {"INET", "INET6", "UNSPEC", "INET"}; unsigned fi = c.pick(4); if (kind != "getaddrinfo" && kind != "gethostbyname" && fi == 2) fi = 0; o += std::string(" ") + fam[fi]; if (kind == "getaddrinfo") { unsigned fl = 0; if (c.chance(1, 3)) fl |= ARES_AI_CANONNAME; if (c.chance(1, 3)) fl |= ARES_AI_NOSORT; if (c.chance(1, 6)) fl |= ARES_AI_ENVHOSTS; if (fl) o += " flags=" + std::to_string(fl); if (c.chance(1, 3)) o += " port=" + std::to_string(1 + c.pick(65535)); } }
+      else if (prop == "C08") { static const char *qt[] = {"A", "A", "AAAA", "TXT", "A", "99", "100", "A", "A", "A"}; o += std::string(" ") + qt[c.pick(10)]; }
       else { static const char *qt[] = {"A", "A", "AAAA", "TXT", "A"}; o += std::string(" ") + qt[c.pick(5)]; }
       if (pf.callbacks && c.chance(1, 3)) { static const char *sc[] = {"new", "cancel", "newcancel", "cancelnew", "new2", "newsearch", "newgai"}; o += std::string(" cb=") + sc[c.pick(7)]; }
       o += "\n";
       if (inject_now) { static const char *ik[] = {"wrongid", "wrongname", "wrongtype", "wrongclass", "wrongcase", "wrongsrc", "wrongsock", "late", "nocookie", "badclientcookie"}; if (c.chance(1, 3)) o += "adv timeout\nstep\n"; o += std::string("inject ") + ik[c.pick(10)] + " " + std::to_string(id) + "\n"; if (c.chance(1, 2)) o += "step\n"; }
     } else if (k < 12) o += "step\n";
     else if (k < 14 && prop == "C20") o += "step\n";   // (no clock jumps: a deadline passing while half a message is buffered is a race with the application, not a segmentation effect)
+    else if (k < 14 && prop == "C08") { static const char *adv[] = {"1s", "2s", "3s", "4s", "6s", "2s", "3s", "1s", "29s", "31s", "59s", "61s", "101s", "299s", "301s", "3601s", "999999us", "1000001us", "86401s", "4s"}; o += std::string("adv ") + adv[c.pick(20)] + "\nstep\n"; }
     else if (k < 14) { static const char *adv[] = {"timeout", "1ms", "137ms", "2s", "timeout-1", "300s", "86400s", "120s", "999999us", "5s"}; o += std::string("adv ") + adv[c.pick(10)] + "\n"; }
     else if (k == 14 && pf.cancel) o += "cancel\n";
     else if (k == 15 && pf.reconfig) { if (c.chance(1, 2)) o += "reinit\n"; else { o += "setservers"; unsigned n = 1 + c.pick(3); for (unsigned j = 0; j < n; j++) o += " 10.0.0." + std::to_string(1 + c.pick(5)); o += "\n"; } }
